@@ -26,6 +26,8 @@ pub struct Fam {
     pub expect_pass: bool,
     /// self-test: these indices must get past the first decoder (well-formed exemplars)
     pub must_pass: Vec<usize>,
+    /// the enumeration yields pairwise distinct inputs by construction (the worker then reports counts, not indices)
+    pub distinct: bool,
     pub make: Box<dyn Fn(usize) -> Input + Send + Sync>,
 }
 
@@ -163,6 +165,7 @@ fn fam_tokens(thorough: bool) -> Fam {
         shard: 40_000,
         expect_pass: true,
         must_pass: vec![],
+        distinct: true,
         make: Box::new(move |idx| {
             let kind = if idx % 2 == 0 { Kind::Strict } else { Kind::Fast };
             let seq = decode_seq(idx / 2, TOK.len());
@@ -272,6 +275,7 @@ fn fam_token_edits(thorough: bool) -> Fam {
         shard: 20_000,
         expect_pass: true,
         must_pass: must,
+        distinct: false,
         make: Box::new(move |idx| {
             let kind = if idx % 2 == 0 { Kind::Strict } else { Kind::Fast };
             let mut e = idx / 2;
@@ -371,6 +375,10 @@ pub const SHAPES: &[Shape] = &[
     sh("mp-many-paths", 12, 14),
     sh("mp-many-files", 10, 11),
     // programmatic values (not reachable through serde_json)
+    // the parser alone on three of the document shapes (attribution only: parser vs later stages)
+    Shape { name: "parse-only-list-value", kq: 16, kt: 18, judged: false },
+    Shape { name: "parse-only-object-value", kq: 16, kt: 18, judged: false },
+    Shape { name: "parse-only-selection", kq: 16, kt: 18, judged: false },
     Shape { name: "prog-var-list", kq: 16, kt: 18, judged: false },
     Shape { name: "prog-var-object", kq: 16, kt: 18, judged: false },
 ];
@@ -484,6 +492,9 @@ pub fn shape_input(shape: &str, n: usize) -> Input {
                 cuts: vec![],
             }
         }
+        "parse-only-list-value" => Seam::Parse(format!("{{any(v:{})}}", nest("[", "1", "]", n))),
+        "parse-only-object-value" => Seam::Parse(format!("{{any(v:{})}}", nest("{a:", "1", "}", n))),
+        "parse-only-selection" => Seam::Parse(format!("{{{}}}", nest("obj{", "a", "}", n))),
         "prog-var-list" => Seam::Prog { object: false, depth: n },
         "prog-var-object" => Seam::Prog { object: true, depth: n },
         other => panic!("unknown shape {other}"),
@@ -503,6 +514,7 @@ fn fam_shape(sp: &'static Shape, thorough: bool) -> Fam {
         shard: 64,
         expect_pass: false,
         must_pass: vec![],
+        distinct: false,
         make: Box::new(move |idx| shape_input(name, 1usize << idx)),
     }
 }
@@ -519,6 +531,7 @@ fn fam_json_depths() -> Fam {
         shard: 130,
         expect_pass: true,
         must_pass: vec![],
+        distinct: false,
         make: Box::new(|idx| shape_input(SH[idx / 130], idx % 130 + 1)),
     }
 }
@@ -651,6 +664,7 @@ fn fam_forged(thorough: bool) -> Fam {
         shard: 12_000,
         expect_pass: true,
         must_pass: vec![],
+        distinct: true,
         make: Box::new(move |idx| {
             let kind = if idx % 2 == 0 { Kind::Strict } else { Kind::Fast };
             let op = if (idx / 2) % 2 == 0 { "query" } else { "mutation" };
@@ -724,6 +738,7 @@ fn fam_opname_ext() -> Fam {
         shard: 2_000,
         expect_pass: true,
         must_pass: vec![],
+        distinct: false,
         make: Box::new(move |idx| {
             if idx < n_op {
                 let kind = kinds[idx % kinds.len()];
@@ -752,16 +767,17 @@ fn fam_opname_ext() -> Fam {
 pub const QS: [&str; 12] = ["query=", "variables=", "extensions=", "operationName=", "%", "%7B", "%ZZ", "&", "=", "{", "a", "+"];
 
 fn fam_query_string(thorough: bool) -> Fam {
-    let maxlen = if thorough { 6 } else { 5 };
+    let maxlen = if thorough { 7 } else { 6 };
     Fam {
         name: "query-strings".into(),
         group: "e",
         len: count_seqs(QS.len(), maxlen),
         mode: Mode::Chunk,
         judged: true,
-        shard: 100_000,
+        shard: 400_000,
         expect_pass: true,
         must_pass: vec![],
+        distinct: true,
         make: Box::new(|idx| {
             let seq = decode_seq(idx, QS.len());
             let q: String = seq.iter().map(|i| QS[*i]).collect();
@@ -897,6 +913,7 @@ fn fam_json_bodies(thorough: bool) -> Fam {
         shard: 20_000,
         expect_pass: true,
         must_pass: must,
+        distinct: false,
         make: Box::new(move |idx| {
             let which = (idx % 4) as u8;
             let mut i = idx / 4;
@@ -928,6 +945,7 @@ fn fam_mp_bodies(thorough: bool) -> Fam {
         shard: if thorough { 40_000 } else { 3_000 },
         expect_pass: true,
         must_pass: must,
+        distinct: false,
         make: Box::new(move |idx| {
             let (mfs, mnf) = OPTS[idx % OPTS.len()];
             let mut i = idx / OPTS.len();
@@ -1039,6 +1057,7 @@ fn fam_mp_map() -> Fam {
         shard: 2_000,
         expect_pass: true,
         must_pass: vec![],
+        distinct: false,
         make: Box::new(move |idx| {
             let o = &ops[idx % ops.len()];
             let m = &maps[idx / ops.len()];
@@ -1129,6 +1148,7 @@ fn fam_ws(thorough: bool) -> Fam {
         shard: if thorough { 20_000 } else { 3_000 },
         expect_pass: true,
         must_pass: must,
+        distinct: false,
         make: Box::new(move |idx| {
             let eof = idx % 2 == 0;
             let proto = ((idx / 2) % 2) as u8;
